@@ -6,6 +6,22 @@
 
 package py
 
+// sequenceRepeatCount converts the count operand of sequence * count
+//
+// ok is false if other is not an integer.  An integer which does not
+// fit an Int gives OverflowError, whatever the sequence.
+func sequenceRepeatCount(other Object) (count Int, ok bool, err error) {
+	if b, isBig := other.(*BigInt); isBig {
+		count, err = b.Int()
+		if err != nil {
+			return 0, true, ExceptionNewf(OverflowError, "cannot fit 'int' into an index-sized integer")
+		}
+		return count, true, nil
+	}
+	count, ok = convertToInt(other)
+	return count, ok, nil
+}
+
 // Converts a sequence object v into a Tuple
 func SequenceTuple(v Object) (Tuple, error) {
 	switch x := v.(type) {
